@@ -361,6 +361,7 @@ def run_schedule(b, on_capture=None):
                 on_capture(b)
             b.pt.reset()
             runs = []
+            b.rule_log_mark, b.probe_log_mark, b.load_log_mark = len(b.rule_log), len(b.probe_log), len(b.load_log)
         elif o == 'reapply':
             apply_ic(b)
         elif o == 'newsolver':
